@@ -40,10 +40,15 @@ void carquet_avx512_bitunpack32_8bit(const uint8_t*, uint32_t*); void carquet_av
 static vrng_t R;
 static const char* ISA = "?";
 static int MAXC = 130;
+/* after the dense range 0..MAXC a few large counts follow (lane counters of 8/16 bits, 32-bit byte offsets, block loops): only with
+ * the two flush placements, so that the pass stays cheap */
+static const int64_t BIGC[] = {255, 256, 257, 65536, 65537, 524288, 4095, 4096, 4097, 65535, 524287, 524289, 1048577}; static int NBIG = 6;   /* thorough: all 13 */ static volatile int BIGN = 0;
+static int64_t nth_count(int i) { if (i <= MAXC) { BIGN = 0; return i; } i -= MAXC + 1; if (i < NBIG) { BIGN = 1; return BIGC[i]; } BIGN = 0; return -1; }
+#define FOR_N(n) for (int64_t n = 0, _ni = 0; (n = nth_count((int)_ni)) >= 0; _ni++)
 static const int MIS_Q[] = {1, 3, 15, 16, 31, 63}; static int NMIS = 6; static int MIS_ALL = 0;
 
 /* ---- guard-paged regions ------------------------------------------------------------------ */
-#define AREA (24 * 4096)
+static size_t AREA = 24 * 4096;   /* grown when the large-count pass is enabled */
 #define WIN 192
 typedef struct { uint8_t* base; } region_t;
 static region_t RG[4];
@@ -78,7 +83,7 @@ static void on_fault(int sig, siginfo_t* si, void* u) { (void)u; if (ARMED) { AR
 #define GUARDED(call) do { ARMED = 1; int _sg = sigsetjmp(JB, 1); if (_sg == 0) { call; ARMED = 0; } else { char _k[128]; snprintf(_k, sizeof _k, "simd:guard-page-fault:%s:%s", CUR, ISA); \
     v_viol(_k, "signal=%d count=%lld placement=%s", _sg, (long long)CURN, CURPL == 0 ? "end-flush" : CURPL == 1 ? "start-flush" : "mid"); faulted = 1; } } while (0)
 static void bad(const char* kind, int64_t n, int pl, int mis) { char k[128]; snprintf(k, sizeof k, "simd:%s:%s:%s", kind, CUR, ISA); v_viol(k, "count=%lld placement=%d misalign=%d", (long long)n, pl, mis); }
-#define PLACEMENTS(...) for (int pl = 0; pl < 2 + (MIS_ALL ? 63 : NMIS); pl++) { int mis = pl < 2 ? 0 : (MIS_ALL ? pl - 1 : MIS_Q[pl - 2]); int plc = pl < 2 ? pl : 2; CURPL = plc; int faulted = 0; (void)faulted; __VA_ARGS__ }
+#define PLACEMENTS(...) for (int pl = 0; pl < (BIGN ? 2 : 2 + (MIS_ALL ? 63 : NMIS)); pl++) { int mis = pl < 2 ? 0 : (MIS_ALL ? pl - 1 : MIS_Q[pl - 2]); int plc = pl < 2 ? pl : 2; CURPL = plc; int faulted = 0; (void)faulted; __VA_ARGS__ }
 #define CASEH(ptr, len, salt) v_case((len) >= 2 ? v_hash((ptr), (len), (uint64_t)(salt) * 1000003ULL + (uint64_t)plc * 97 + (uint64_t)mis) : 0)
 
 /* ---- scalar definitions restated ---------------------------------------------------------------- */
@@ -86,7 +91,7 @@ static uint32_t ref_crc32c(uint32_t crc, const uint8_t* d, size_t n) { crc = ~cr
 
 typedef void (*psum32_fn)(int32_t*, int64_t, int32_t);
 static void t_psum32(psum32_fn f) { CUR = "prefix_sum_i32";
-    for (int64_t n = 0; n <= MAXC; n++) for (int law = 0; law < 3; law++) PLACEMENTS({ CURN = n;
+    FOR_N(n) for (int law = 0; law < 3; law++) PLACEMENTS({ CURN = n;
         gb_t g = gplace(0, (size_t)n * 4, plc, mis); int32_t* v = (int32_t*)g.p; uint32_t* ref = malloc((size_t)n * 4 + 4);
         int32_t init = law == 1 ? INT32_MAX : (int32_t)vrng_u64(&R); uint32_t s = (uint32_t)init;
         for (int64_t i = 0; i < n; i++) { int32_t x = law == 0 ? (int32_t)vrng_u64(&R) : law == 1 ? INT32_MAX : (int32_t)vrng_range(&R, -3, 3); memcpy(&v[i], &x, 4); s += (uint32_t)x; ref[i] = s; }
@@ -96,7 +101,7 @@ static void t_psum32(psum32_fn f) { CUR = "prefix_sum_i32";
         free(ref); }) }
 typedef void (*psum64_fn)(int64_t*, int64_t, int64_t);
 static void t_psum64(psum64_fn f) { CUR = "prefix_sum_i64";
-    for (int64_t n = 0; n <= MAXC; n++) for (int law = 0; law < 3; law++) PLACEMENTS({ CURN = n;
+    FOR_N(n) for (int law = 0; law < 3; law++) PLACEMENTS({ CURN = n;
         gb_t g = gplace(0, (size_t)n * 8, plc, mis); int64_t* v = (int64_t*)g.p; uint64_t* ref = malloc((size_t)n * 8 + 8);
         int64_t init = law == 1 ? INT64_MAX : (int64_t)vrng_u64(&R); uint64_t s = (uint64_t)init;
         for (int64_t i = 0; i < n; i++) { int64_t x = law == 0 ? (int64_t)vrng_u64(&R) : law == 1 ? INT64_MAX : vrng_range(&R, -3, 3); memcpy(&v[i], &x, 8); s += (uint64_t)x; ref[i] = s; }
@@ -107,7 +112,7 @@ static void t_psum64(psum64_fn f) { CUR = "prefix_sum_i64";
 
 #define T_GATHER(NAME, T, FNT, SALT) typedef void (*FNT)(const T*, const uint32_t*, int64_t, T*); \
 static void NAME(FNT f, const char* nm) { CUR = nm; \
-    for (int64_t n = 0; n <= MAXC; n++) for (int law = 0; law < 3; law++) PLACEMENTS({ CURN = n; \
+    FOR_N(n) for (int law = 0; law < 3; law++) PLACEMENTS({ CURN = n; \
         size_t D = law == 0 ? 1 + vrng_below(&R, 300) : law == 1 ? 1 : 1 + vrng_below(&R, 5); \
         gb_t gd = gplace(0, D * sizeof(T), (pl & 1) ? 1 : 0, 0); gb_t gi = gplace(1, (size_t)n * 4, plc, mis); gb_t go = gplace(2, (size_t)n * sizeof(T), plc, mis); \
         vrng_bytes(&R, gd.p, D * sizeof(T)); uint32_t* idx = (uint32_t*)gi.p; T* ref = malloc((size_t)n * sizeof(T) + 8); \
@@ -120,13 +125,13 @@ T_GATHER(t_gather32, int32_t, g32_fn, 3) T_GATHER(t_gather64, int64_t, g64_fn, 4
 
 #define T_BSS(NAME, T, W, ENCT, DECT) typedef void (*ENCT)(const T*, int64_t, uint8_t*); typedef void (*DECT)(const uint8_t*, int64_t, T*); \
 static void NAME##_enc(ENCT f, const char* nm) { CUR = nm; \
-    for (int64_t n = 0; n <= MAXC; n++) for (int law = 0; law < 2; law++) PLACEMENTS({ CURN = n; size_t sz = (size_t)n * W; \
+    FOR_N(n) for (int law = 0; law < 2; law++) PLACEMENTS({ CURN = n; size_t sz = (size_t)n * W; \
         gb_t gi = gplace(0, sz, plc, mis); gb_t go = gplace(1, sz, plc, mis); vrng_bytes(&R, gi.p, sz); if (law) for (size_t i = 0; i < sz; i++) gi.p[i] = (uint8_t)(i * 37 + 1); \
         uint8_t* ref = malloc(sz + 8); for (int64_t i = 0; i < n; i++) for (int b = 0; b < W; b++) ref[(size_t)b * (size_t)n + (size_t)i] = gi.p[(size_t)i * W + (size_t)b]; \
         CASEH(gi.p, sz, 7 + W); GUARDED(f((const T*)gi.p, n, go.p)); \
         if (!faulted) { if (sz && memcmp(go.p, ref, sz)) bad("result-differs", n, plc, mis); if (gcheck(go)) bad("write-outside", n, plc, mis); } free(ref); }) } \
 static void NAME##_dec(DECT f, const char* nm) { CUR = nm; \
-    for (int64_t n = 0; n <= MAXC; n++) for (int law = 0; law < 2; law++) PLACEMENTS({ CURN = n; size_t sz = (size_t)n * W; \
+    FOR_N(n) for (int law = 0; law < 2; law++) PLACEMENTS({ CURN = n; size_t sz = (size_t)n * W; \
         gb_t gi = gplace(0, sz, plc, mis); gb_t go = gplace(1, sz, plc, mis); vrng_bytes(&R, gi.p, sz); if (law) for (size_t i = 0; i < sz; i++) gi.p[i] = (uint8_t)(i * 41 + 3); \
         uint8_t* ref = malloc(sz + 8); for (int64_t i = 0; i < n; i++) for (int b = 0; b < W; b++) ref[(size_t)i * W + (size_t)b] = gi.p[(size_t)b * (size_t)n + (size_t)i]; \
         CASEH(gi.p, sz, 9 + W); GUARDED(f(gi.p, n, (T*)go.p)); \
@@ -135,13 +140,13 @@ T_BSS(t_bssf, float, 4, bef_fn, bdf_fn) T_BSS(t_bssd, double, 8, bed_fn, bdd_fn)
 
 typedef void (*bools_fn)(const uint8_t*, uint8_t*, int64_t);
 static void t_unpack_bools(bools_fn f) { CUR = "unpack_bools";
-    for (int64_t n = 0; n <= MAXC; n++) for (int law = 0; law < 2; law++) PLACEMENTS({ CURN = n; size_t ib = (size_t)(n + 7) / 8;
+    FOR_N(n) for (int law = 0; law < 2; law++) PLACEMENTS({ CURN = n; size_t ib = (size_t)(n + 7) / 8;
         gb_t gi = gplace(0, ib, plc, mis); gb_t go = gplace(1, (size_t)n, plc, mis); vrng_bytes(&R, gi.p, ib); if (law) memset(gi.p, 0xFF, ib);
         uint8_t* ref = malloc((size_t)n + 8); for (int64_t i = 0; i < n; i++) ref[i] = (gi.p[i / 8] >> (i % 8)) & 1;
         CASEH(gi.p, ib, 11 + n); GUARDED(f(gi.p, go.p, n));
         if (!faulted) { if (n && memcmp(go.p, ref, (size_t)n)) bad("result-differs", n, plc, mis); if (gcheck(go)) bad("write-outside", n, plc, mis); } free(ref); }) }
 static void t_pack_bools(bools_fn f) { CUR = "pack_bools";
-    for (int64_t n = 0; n <= MAXC; n++) for (int law = 0; law < 2; law++) PLACEMENTS({ CURN = n; size_t ob = (size_t)(n + 7) / 8;
+    FOR_N(n) for (int law = 0; law < 2; law++) PLACEMENTS({ CURN = n; size_t ob = (size_t)(n + 7) / 8;
         gb_t gi = gplace(0, (size_t)n, plc, mis); gb_t go = gplace(1, ob, plc, mis); for (int64_t i = 0; i < n; i++) gi.p[i] = law ? 1 : (uint8_t)(vrng_u64(&R) & 1);
         uint8_t* ref = calloc(ob + 8, 1); for (int64_t i = 0; i < n; i++) if (gi.p[i]) ref[i / 8] |= (uint8_t)(1u << (i % 8));
         memset(go.p, 0xEE, ob); CASEH(gi.p, (size_t)n, 12); GUARDED(f(gi.p, go.p, n));
@@ -156,14 +161,14 @@ static void t_find_run(frl_fn f) { CUR = "find_run_length_i32";
         if (!faulted && got != want) bad("result-differs", n, plc, mis); }) } }
 typedef uint32_t (*crc_fn)(uint32_t, const uint8_t*, size_t);
 static void t_crc32c(crc_fn f) { CUR = "crc32c";
-    for (int64_t n = 0; n <= MAXC; n++) for (int law = 0; law < 3; law++) PLACEMENTS({ CURN = n;
+    FOR_N(n) for (int law = 0; law < 3; law++) PLACEMENTS({ CURN = n;
         gb_t g = gplace(0, (size_t)n, plc, mis); vrng_bytes(&R, g.p, (size_t)n); if (law == 1) memset(g.p, 0, (size_t)n);
         uint32_t init = law == 2 ? (uint32_t)vrng_u64(&R) : 0; uint32_t want = ref_crc32c(init, g.p, (size_t)n), got = 0; CASEH(g.p, (size_t)n, 14 + init); GUARDED(got = f(init, g.p, (size_t)n));
         if (!faulted && got != want) bad("result-differs", n, plc, mis); }) }
 typedef void (*mcopy_fn)(uint8_t*, const uint8_t*, size_t, size_t);
 static void t_match_copy(mcopy_fn f) { CUR = "match_copy";
     static const size_t offs[] = {1, 2, 3, 4, 5, 7, 8, 9, 15, 16, 17, 31, 32, 33, 40, 64, 100};
-    for (int64_t n = 0; n <= MAXC; n++) for (size_t oi = 0; oi < sizeof offs / sizeof *offs; oi++) PLACEMENTS({ CURN = n; size_t off = offs[oi];
+    FOR_N(n) for (size_t oi = 0; oi < sizeof offs / sizeof *offs; oi++) PLACEMENTS({ CURN = n; size_t off = offs[oi];
         gb_t g = gplace(0, off + (size_t)n, plc, mis); vrng_bytes(&R, g.p, off); memset(g.p + off, 0xAB, (size_t)n);
         uint8_t* ref = malloc(off + (size_t)n + 8); memcpy(ref, g.p, off); for (int64_t i = 0; i < n; i++) ref[off + (size_t)i] = ref[(size_t)i];
         CASEH(g.p, off, 15 + n); GUARDED(f(g.p + off, g.p, (size_t)n, off));
@@ -181,20 +186,20 @@ static void t_match_length(mlen_fn f) { CUR = "match_length";
         if (!faulted && got != want) bad("result-differs", n, plc, mis); }) } }
 typedef int64_t (*cnn_fn)(const int16_t*, int64_t, int16_t);
 static void t_count_non_nulls(cnn_fn f) { CUR = "count_non_nulls";
-    for (int64_t n = 0; n <= MAXC; n++) for (int law = 0; law < 3; law++) PLACEMENTS({ CURN = n; int16_t mx = law == 2 ? 3 : 1;
+    FOR_N(n) for (int law = 0; law < 3; law++) PLACEMENTS({ CURN = n; int16_t mx = law == 2 ? 3 : 1;
         gb_t g = gplace(0, (size_t)n * 2, plc, mis); int16_t* v = (int16_t*)g.p; int64_t want = 0;
         for (int64_t i = 0; i < n; i++) { int16_t x = law == 1 ? mx : (int16_t)vrng_below(&R, (uint64_t)mx + 1); memcpy(&v[i], &x, 2); if (x == mx) want++; }
         int64_t got = -1; CASEH(g.p, (size_t)n * 2, 17 + mx); GUARDED(got = f(v, n, mx)); if (!faulted && got != want) bad("result-differs", n, plc, mis); }) }
 typedef void (*bnb_fn)(const int16_t*, int64_t, int16_t, uint8_t*);
 static void t_build_null_bitmap(bnb_fn f) { CUR = "build_null_bitmap";
-    for (int64_t n = 0; n <= MAXC; n++) for (int law = 0; law < 3; law++) PLACEMENTS({ CURN = n; int16_t mx = law == 2 ? 3 : 1; size_t ob = (size_t)(n + 7) / 8;
+    FOR_N(n) for (int law = 0; law < 3; law++) PLACEMENTS({ CURN = n; int16_t mx = law == 2 ? 3 : 1; size_t ob = (size_t)(n + 7) / 8;
         gb_t g = gplace(0, (size_t)n * 2, plc, mis); gb_t go = gplace(1, ob, plc, mis); int16_t* v = (int16_t*)g.p; uint8_t* ref = calloc(ob + 8, 1); memset(go.p, 0, ob);
         for (int64_t i = 0; i < n; i++) { int16_t x = law == 1 ? 0 : (int16_t)vrng_below(&R, (uint64_t)mx + 1); memcpy(&v[i], &x, 2); if (x < mx) ref[i / 8] |= (uint8_t)(1u << (i % 8)); }
         CASEH(g.p, (size_t)n * 2, 19 + mx); GUARDED(f(v, n, mx, go.p));
         if (!faulted) { if (ob && memcmp(go.p, ref, ob)) bad("result-differs", n, plc, mis); if (gcheck(go)) bad("write-outside", n, plc, mis); } free(ref); }) }
 typedef void (*fill_fn)(int16_t*, int64_t, int16_t);
 static void t_fill(fill_fn f) { CUR = "fill_def_levels";
-    for (int64_t n = 0; n <= MAXC; n++) PLACEMENTS({ CURN = n; int16_t val = (int16_t)vrng_u64(&R); gb_t g = gplace(0, (size_t)n * 2, plc, mis); memset(g.p, 0x11, (size_t)n * 2);
+    FOR_N(n) PLACEMENTS({ CURN = n; int16_t val = (int16_t)vrng_u64(&R); gb_t g = gplace(0, (size_t)n * 2, plc, mis); memset(g.p, 0x11, (size_t)n * 2);
         v_case(n >= 2 ? v_hash(&val, 2, (uint64_t)n * 3 + (uint64_t)plc + (uint64_t)mis * 5) : 0); GUARDED(f((int16_t*)g.p, n, val)); int ok = 1; for (int64_t i = 0; i < n; i++) { int16_t x; memcpy(&x, g.p + 2 * i, 2); if (x != val) ok = 0; }
         if (!faulted) { if (!ok) bad("result-differs", n, plc, mis); if (gcheck(g)) bad("write-outside", n, plc, mis); } }) }
 typedef void (*mset_fn)(void*, uint8_t, size_t); typedef void (*mcpy_fn)(void*, const void*, size_t);
@@ -217,7 +222,8 @@ static void t_unpack_fixed(unp_fn f, const char* nm, int nvals, int width) { CUR
 int main(int argc, char** argv) {
     if (argc < 4) return 2; const char* mode = argv[1]; uint64_t seed = strtoull(argv[2], 0, 10); int scale = atoi(argv[3]);
     PG = (size_t)sysconf(_SC_PAGESIZE); vrng_seed(&R, seed * 31337 + v_hash(mode, strlen(mode), 3));
-    if (scale >= 2) { MAXC = 320; MIS_ALL = 1; }
+    if (scale >= 2) { MAXC = 320; MIS_ALL = 1; NBIG = 13; }
+    AREA = (size_t)12 * 1024 * 1024;   /* 1048577 elements of 8 bytes + window */
     for (int i = 0; i < 4; i++) region_init(&RG[i]);
     struct sigaction sa; memset(&sa, 0, sizeof sa); sa.sa_sigaction = on_fault; sa.sa_flags = SA_SIGINFO | SA_NODEFER; sigaction(SIGSEGV, &sa, NULL); sigaction(SIGBUS, &sa, NULL); sigaction(SIGILL, &sa, NULL);
     (void)carquet_init(); const carquet_cpu_info_t* ci = carquet_get_cpu_info();
